@@ -387,11 +387,111 @@ def splice_async(raw, bi, g, site):
     sbk["term"] = {"k": "goto", "target": site["ready"], "l": sbk["term"].get("l"), "inl_ready": g.id}
 
 
+
+def _single_closure_def(raw, local):
+    """the one statement `local = {closure} [captures]` in this body (None if the local has other whole definitions)"""
+    found = None
+    n = 0
+    for bi, b in enumerate(raw["blocks"]):
+        for st in b["stmts"]:
+            if st["k"] == "assign" and st["lhs"] == [local, []]:
+                n += 1
+                if st["rv"]["k"] == "agg" and st["rv"].get("kind") == "closure":
+                    found = st
+        t = b["term"]
+        if t["k"] == "call" and t.get("dest") == [local, []]:
+            n += 1
+    return found if n == 1 else None
+
+
+def desugar_for_each(raw, originals, stats=None, owner=None):
+    """`iter.for_each(|x| body)` is `for x in iter { body }`: the call becomes a loop over a synthetic `Iterator::next`, with
+    the closure's body spliced in as the loop body (its environment is a reference to the closure value, so captured
+    variables resolve through the closure aggregate exactly as before).  Only closures written in place are handled."""
+    changed = False
+    blocks = raw["blocks"]
+    for bi in range(len(blocks)):
+        t = blocks[bi]["term"]
+        if t["k"] != "call" or blocks[bi].get("cleanup") or t.get("target") is None:
+            continue
+        d, _r = _fn_def(t)
+        if d != "std::iter::Iterator::for_each" or len(t["args"]) != 2:
+            continue
+        cop = t["args"][1]
+        if cop.get("k") != "move" or cop["p"][1]:
+            continue
+        cst = _single_closure_def(raw, cop["p"][0])
+        if cst is None:
+            continue
+        q = originals.get(cst["rv"]["def"])
+        if q is None or q.kind != "closure" or q.arg_count != 2:
+            continue
+        if len(blocks) + len(q.raw["blocks"]) + 6 > MAX_BLOCKS:
+            continue
+        cl_local = cop["p"][0]
+        L = raw["locals"]
+        def new_local(ty):
+            L.append({"ty": ty, "mut": True, "user": False, "synthetic": True})
+            return len(L) - 1
+        it = new_local("<iterator>")
+        rit = new_local("&mut <iterator>")
+        item_ty = q.raw["locals"][2]["ty"]
+        nxt = new_local("std::option::Option<%s>" % item_ty)
+        dsc = new_local("isize")
+        lb = len(L)
+        pb = len(raw.get("promoted") or [])
+        L.extend(copy.deepcopy(q.raw["locals"]))
+        if q.raw.get("promoted"):
+            raw.setdefault("promoted", [])
+            raw["promoted"].extend(copy.deepcopy(q.raw["promoted"]))
+        ln = t.get("l")
+        H, S, B, E, U = len(blocks), len(blocks) + 1, len(blocks) + 2, len(blocks) + 3, len(blocks) + 4
+        qbase = len(blocks) + 5
+        env_mut = "&mut" in q.raw["locals"][1]["ty"][:5]
+        by_value = not q.raw["locals"][1]["ty"].startswith("&")
+        blocks.append({"cleanup": False, "inl": q.id, "stmts": [{"k": "assign", "l": ln, "lhs": [rit, []], "rv": {"k": "ref", "mut": True, "p": [it, []]}}],
+                       "term": {"l": ln, "k": "call", "synthetic": True,
+                                "func": {"k": "const", "ty": "fn", "val": "<I as std::iter::Iterator>::next", "fn": {"def": "std::iter::Iterator::next", "gargs": [], "trait": "std::iter::Iterator"}},
+                                "args": [{"k": "move", "p": [rit, []]}], "dest": [nxt, []], "target": S}})
+        blocks.append({"cleanup": False, "inl": q.id, "stmts": [{"k": "assign", "l": ln, "lhs": [dsc, []], "rv": {"k": "disc", "p": [nxt, []], "ty": "std::option::Option<%s>" % item_ty, "adt": "std::option::Option", "variants": [["None", "0"], ["Some", "1"]]}}],
+                       "term": {"l": ln, "k": "switch", "discr": {"k": "move", "p": [dsc, []]}, "dty": "isize", "targets": [["0", E], ["1", B]], "otherwise": U}})
+        env_rv = {"k": "use", "op": {"k": "move", "p": [cl_local, []]}} if by_value else {"k": "ref", "mut": env_mut, "p": [cl_local, []]}
+        blocks.append({"cleanup": False, "inl": q.id, "stmts": [{"k": "assign", "l": ln, "lhs": [lb + 1, []], "rv": env_rv},
+                                                              {"k": "assign", "l": ln, "lhs": [lb + 2, []], "rv": {"k": "use", "op": {"k": "move", "p": [nxt, ["d:1:Some", "f:0:0"]]}}}],
+                       "term": {"l": ln, "k": "goto", "target": qbase}})
+        blocks.append({"cleanup": False, "inl": q.id, "stmts": [], "term": {"l": ln, "k": "goto", "target": t["target"]}})
+        blocks.append({"cleanup": False, "inl": q.id, "stmts": [], "term": {"l": ln, "k": "unreachable"}})
+        for d_ in q.raw.get("debug", []):
+            raw["debug"].append({"name": d_["name"], "p": _map_place(d_["p"], lb)})
+        for qb in q.raw["blocks"]:
+            nb = {"cleanup": qb.get("cleanup", False), "inl": q.id, "stmts": [_map_stmt(s_, lb, pb) for s_ in qb["stmts"] if s_["k"] not in ("live", "dead")]}
+            qt = qb["term"]
+            if qt["k"] == "return":
+                nb["term"] = {"k": "goto", "target": H, "l": qt.get("l")}
+            else:
+                nb["term"] = _map_term(qt, lb, qbase, pb)
+            blocks.append(nb)
+        b = blocks[bi]
+        b["stmts"].append({"k": "assign", "l": ln, "lhs": [it, []], "rv": {"k": "use", "op": t["args"][0]}, "inl": q.id})
+        b["term"] = {"k": "goto", "target": H, "l": ln, "inl_call": q.id}
+        changed = True
+        if stats is not None:
+            stats.append((owner or raw.get("id"), q.id))
+    return changed
+
+
 def inline_body(db, f, originals, stats=None, mode="cons"):
     """returns a new raw dict for f with inlinable local calls spliced in, or None if nothing was inlined"""
     raw = None
     changed = False
     for depth in range(MAX_DEPTH):
+        if not os.environ.get("VERIF_NO_FOREACH"):
+            has = any(b["term"]["k"] == "call" and _fn_def(b["term"])[0] == "std::iter::Iterator::for_each" for b in (raw if raw is not None else f.raw)["blocks"])
+            if has:
+                if raw is None:
+                    raw = copy.deepcopy(f.raw)
+                if desugar_for_each(raw, originals, stats, f.id):
+                    changed = True
         src = raw if raw is not None else f.raw
         blocks = src["blocks"]
         todo = []
